@@ -384,6 +384,67 @@ theorem updateAt_val (dflt : ν) (g : ν → ν) : ∀ (d : Nat) (t : Tree κ ν
     · have : ¬ (c' :: qs = c :: cs) := fun e => hc (List.cons.inj e).1
       simp only [hc, this, if_false]
 
+theorem lookup_map_snd {π : Type} (f : Fib κ π) (h : π → π) (c : κ) :
+    lookup (f.map (fun e => (e.1, h e.2))) c = (lookup f c).map h := by
+  induction f with
+  | nil => rfl
+  | cons e r ih =>
+    rw [List.map_cons, lookup_cons, lookup_cons]
+    by_cases h1 : e.1 = c
+    · simp [h1]
+    · simp [h1, ih]
+
+/-- reads after an in-place update of everything below the partial point `p`: points below `p` see the updated
+    value, every other point what it saw before (`g` leaves the default alone, as `x ↦ x * k` does for 0 and as the
+    library's walk does for any default by skipping empty elements) -/
+theorem updateUnder_val (dflt : ν) (g : ν → ν) (hg : g dflt = dflt) :
+    ∀ (d : Nat) (t : Tree κ ν d) (p q : List κ), p.length ≤ d →
+    val dflt d (updateUnder g d t p) q = if p <+: q then g (val dflt d t q) else val dflt d t q
+  | 0, v, [], q, _ => by simp [val, updateUnder]
+  | 0, _, _ :: _, _, hp => by simp at hp
+  | d + 1, (f : List (κ × Tree κ ν d)), [], [], _ => by simp [val, hg]
+  | d + 1, (f : List (κ × Tree κ ν d)), [], c' :: qs, _ => by
+    simp only [val, updateUnder, List.nil_prefix, if_true]
+    rw [lookup_map_snd f (fun t => updateUnder g d t []) c']
+    cases hl : lookup (show List (κ × Tree κ ν d) from f) c' with
+    | none => simp [hg]
+    | some s =>
+      simp only [Option.map_some]
+      rw [updateUnder_val dflt g hg d s [] qs (Nat.zero_le _)]; simp
+  | d + 1, (f : List (κ × Tree κ ν d)), c :: cs, [], _ => by simp [val]
+  | d + 1, (f : List (κ × Tree κ ν d)), c :: cs, c' :: qs, hp => by
+    have hp' : cs.length ≤ d := by simpa using hp
+    simp only [val, updateUnder]
+    rw [lookup_map_key f c c' (fun t => updateUnder g d t cs)]
+    by_cases hc : c' = c
+    · subst hc
+      simp only [if_true, List.cons_prefix_cons, true_and]
+      cases hl : lookup (show List (κ × Tree κ ν d) from f) c' with
+      | none => simp [hg]
+      | some s =>
+        simp only [Option.map_some]
+        rw [updateUnder_val dflt g hg d s cs qs hp']
+    · have : ¬ (c :: cs <+: c' :: qs) := by
+        rw [List.cons_prefix_cons]; exact fun h => hc h.1.symm
+      simp only [hc, this, if_false]
+
+theorem updateUnder_wf (g : ν → ν) : ∀ (d : Nat) (t : Tree κ ν d), WF d t → ∀ p, WF d (updateUnder g d t p)
+  | 0, _, _, _ => trivial
+  | d + 1, (f : List (κ × Tree κ ν d)), h, [] => by
+    simp only [updateUnder]
+    refine ⟨sorted_map_payload _ _ (fun e => rfl) h.sorted, ?_⟩
+    intro e he
+    obtain ⟨x, hx, rfl⟩ := List.mem_map.1 he
+    exact updateUnder_wf g d x.2 (h.sub x hx) []
+  | d + 1, (f : List (κ × Tree κ ν d)), h, c :: cs => by
+    simp only [updateUnder]
+    refine ⟨sorted_map_payload _ _ (fun e => by by_cases he : e.1 = c <;> simp [he]) h.sorted, ?_⟩
+    intro e he
+    obtain ⟨x, hx, rfl⟩ := List.mem_map.1 he
+    by_cases hxc : x.1 = c
+    · simp only [hxc, if_true]; exact updateUnder_wf g d x.2 (h.sub x hx) cs
+    · simp only [hxc, if_false]; exact h.sub x hx
+
 theorem updateAt_wf (g : ν → ν) : ∀ (d : Nat) (t : Tree κ ν d), WF d t → ∀ p, WF d (updateAt g d t p)
   | 0, _, _, _ => trivial
   | _ + 1, _, h, [] => h
